@@ -10,7 +10,7 @@ from typing import TYPE_CHECKING
 # Third Party Imports
 from numpy import array
 from numpy import max as np_max
-from numpy import ones_like, spacing, zeros
+from numpy import finfo, ones_like, spacing, zeros
 from scipy.integrate import solve_ivp
 
 # Local Imports
@@ -143,6 +143,21 @@ class Celestial(Dynamics, metaclass=ABCMeta):
         return current_state
 
     @staticmethod
+    def _resumeOffset(time: float) -> float:
+        r"""Offset after which integration resumes once an event interrupted it at `time`.
+
+        Scheduled events treat times within floating point error of their own time as equal to it, so
+        integration has to resume beyond that, which a single ULP is not for small times.
+
+        Args:
+            time (``float``): time at which integration was interrupted, sec.
+
+        Returns:
+            ``float``: offset to add to `time`, sec.
+        """
+        return max(spacing(time), 2.0 * finfo(float).resolution)
+
+    @staticmethod
     def _simultaneousImpulses(
         t_events: ndarray,
         events: list[ScheduledEventType],
@@ -264,7 +279,7 @@ class Celestial(Dynamics, metaclass=ABCMeta):
             events = self._dropAppliedImpulses(solution.t_events, events)
 
             # Retrieve final time, this should auto-exit the loop if fully-integrated
-            initial_time = solution.t[-1] + spacing(solution.t[-1])
+            initial_time = solution.t[-1] + self._resumeOffset(solution.t[-1])
 
         # Return final state from the solver
         return (
@@ -380,7 +395,7 @@ class Celestial(Dynamics, metaclass=ABCMeta):
             # [NOTE]: Need to increment time a tiny bit, so events don't re-trigger.
             # This also protects events that occur on a timestep. The event is applied
             # at the end of the previous timestep, rather than the beginning of current
-            current_time += spacing(current_time)
+            current_time += self._resumeOffset(current_time)
 
             # Save states to output variable, checks for case where event occurs before times[1]
             final_states[..., num_times : num_times + n_t] = states
